@@ -172,6 +172,7 @@ func readerParked(w *World, pre *Snapshot, writer Op, writer2 *Op, park Inject) 
 		}
 		exited, _ := p.WaitParkedOrExit(hangLimit)
 		wr := Run(trial.Build(writer))
+		logAfterWriter := ReadLog(trial.Root)
 		if writer2 != nil {
 			trial.writeFiles(writer2.Files)
 			Run(trial.Build(*writer2))
@@ -188,6 +189,14 @@ func readerParked(w *World, pre *Snapshot, writer Op, writer2 *Op, park Inject) 
 		}
 		p.Close()
 		after := ReadLog(trial.Root)
+		if wr.OK() && writer2 == nil {
+			// the reader is read-only: whatever it did while stopped and resumed, the log must
+			// be what the writer left (an acknowledged write erased by a reader is worse than
+			// a wrong read)
+			if cur, want := string(after), string(logAfterWriter); want != "" && cur != want {
+				viol = append(viol, Violation{"C13", fmt.Sprintf("after the stopped reader `%s` went on, the log is no longer what the acknowledged writer left (%d -> %d bytes)", strings.Join(c, " "), len(want), len(cur))})
+			}
+		}
 		o := readObs{fmt.Sprintf("(reader stopped after %s #%d while `%s` ran, exit %d)", park.Syscall, park.When, strings.Join(trial.Build(writer).Args, " "), wr.Code), c, res.Code, res.Stdout, res.Stderr}
 		// outputs mention the store path (file urls): normalise the trial root to the main root
 		o.Out = strings.ReplaceAll(o.Out, trial.Root, w.Root)
